@@ -247,8 +247,8 @@ class C03(Property):
             if not [t for t in invalid.tokens_of(d.get('text', '').lstrip('﻿')) if t.strip() and not t.startswith('#')] or _only_comments(d.get('text', '')):
                 return 'C03-F1'
         if 'C03-F2' in ids and f.signature.startswith(('error_offset_inside_character', 'error_offset_outside_input')) and '\r\n' in d.get('text', '') and \
-                re.search(r'''[fF][rR]?['"]|[rR][fF]['"]|\'{3}|"{3}''', d.get('text', '')):
-            # (an f-string or a triple-quoted literal: the only tokens that can hold a CRLF)
+                re.search(r'''['"]''', d.get('text', '')):
+            # (a string token holding a CRLF: triple-quoted, or any literal with a backslash-CRLF join inside)
             return 'C03-F2'
         return None
 
